@@ -328,6 +328,31 @@ func c02case(c *Ctx, text string, multi, inv bool) {
 	if nf2 := doc2.String(); nf2 != nf {
 		c.Oracle(key, "the normal form does not re-encode to the same bytes", in, hexs(nf2), hexs(nf))
 	}
+	if multi {
+		// the hypothesis of C02.normal_form_multiline (model: legalMLDocB) must hold for every
+		// document the real decoder returns under AllowMultiLine, except the known-finding shape
+		// (a record line that got a value), where it must be false
+		want := "1"
+		if key != "" {
+			want = "0"
+			c.Count("legalml:finding-shape")
+		} else {
+			c.Count("legalml:covered")
+		}
+		if c02HasMultiLineValue(got) {
+			c.Count("legalml:has-multi-line-value")
+		}
+		c.Tie("legalml "+encForest(got), want)
+	}
+}
+
+func c02HasMultiLineValue(f []*TNode) bool {
+	for _, t := range f {
+		if strings.Contains(t.Value, "\n") || c02HasMultiLineValue(t.Kids) {
+			return true
+		}
+	}
+	return false
 }
 
 // c02IsContinuationAfterRecord is the matcher of the known finding: an INDI/FAM node carries a
